@@ -46,6 +46,14 @@ type VdrSpec struct {
 	// the pipestance directory is reached through a symbolic link, and stages
 	// report some of their files by their canonical (fully resolved) path
 	LinkedRoot bool `json:"linked_root"`
+	// a job that takes pipestance files as arguments (the FailAt-th such launch)
+	// fails once in the given way (errors | assert | exit); the other jobs in
+	// flight finish before mrp looks again; mrp is restarted (retry)
+	FailConsumer string `json:"fail_consumer,omitempty"`
+	FailAt       int    `json:"fail_at,omitempty"`
+	// between the death of mrp (first crash) and its restart a sub-pipeline's
+	// directory is moved out of the pipestance directory and linked back
+	RelocateSub bool `json:"relocate_sub,omitempty"`
 }
 
 // With a linked root: the canonical spelling of the pipestance directory and
@@ -143,6 +151,10 @@ type vdrRun struct {
 	stageOfNode map[string]*syntax.Stage
 	faultSet    bool
 	retried     bool
+	faultKey    string
+	nFileLaunch int
+	reloc       *vdrReloc
+	knownForks  map[string]bool
 }
 
 type vdrSnapshot struct {
@@ -271,6 +283,15 @@ func (v *vdrRun) snapshot(full bool) *vdrSnapshot {
 	}
 	if full && v.r.ps != nil {
 		s.Forks = v.r.ps.VerifVdrView()
+		if v.reloc != nil {
+			kept := s.Forks[:0]
+			for _, f := range s.Forks {
+				if !v.underReloc(v.rel(f.Path)) {
+					kept = append(kept, f)
+				}
+			}
+			s.Forks = kept
+		}
 		s.Nodes = v.r.ps.VerifNodeStates()
 		s.Reports = map[string]json.RawMessage{}
 		s.Outs = map[string]json.RawMessage{}
@@ -310,6 +331,9 @@ func (v *vdrRun) checkOutside(key, by string) {
 
 func (v *vdrRun) observe(duringReset bool) {
 	v.checkOutside("C14:outside-touched", "while the pipestance ran")
+	if !duringReset {
+		v.checkNewForks()
+	}
 	tree := lstatTree(v.psdir)
 	seq := len(v.r.Events)
 	var newly []string
@@ -425,6 +449,18 @@ func (v *vdrRun) outsHook(job *TAJob, outs map[string]interface{}) {
 					v.writtenBy[v.rel(p)] = job.Key
 					v.tmpFiles[v.rel(p)] = true
 				}
+			}
+		}
+		return
+	}
+	if strings.HasPrefix(job.StageName, "FLAG") {
+		// the run-time flag of a `disabled` modifier: mostly false (the call runs)
+		if _, ok := outs["o0"]; ok {
+			outs["o0"] = hash64("vdr-flag", job.Key)%4 == 0
+			if outs["o0"].(bool) {
+				v.hist("shape-sub-pipeline-disabled-at-run-time")
+			} else {
+				v.hist("shape-sub-pipeline-enabled-behind-disabled-modifier")
 			}
 		}
 		return
@@ -551,6 +587,7 @@ func (v *vdrRun) outsHook(job *TAJob, outs map[string]interface{}) {
 			outs[k] = canon(outs[k])
 		}
 	}
+	v.escapeNames(job, outs)
 	// unreferenced material: a directory tree under files/ and files in tmp/
 	rng := rand.New(rand.NewSource(int64(hash64("vdr-extra", job.Key))))
 	if rng.Intn(2) == 0 && !v.spec.NoExtra {
@@ -611,6 +648,18 @@ func (v *vdrRun) launchHook(job *TAJob) {
 	}
 	if len(rels) > 0 {
 		v.hist("launch-with-file-args")
+		if v.r.Launches[job.Key] > 1 {
+			v.hist("relaunch-with-file-args")
+		}
+		if v.spec.FailConsumer != "" && !v.faultSet {
+			if v.nFileLaunch == v.spec.FailAt {
+				v.faultSet = true
+				v.faultKey = job.Key
+				v.r.Opts.Faults = append(v.r.Opts.Faults, &Fault{JobKey: job.Key, Kind: v.spec.FailConsumer})
+				v.hist("consumer-failure-injected-" + v.spec.FailConsumer + "-" + job.ShellName)
+			}
+			v.nFileLaunch++
+		}
 	}
 	v.launchArg[job.Key] = rels
 }
@@ -707,6 +756,7 @@ func runVdrSpec(spec *VdrSpec, scratch string) *VdrResult {
 		}
 	}
 	v.buildChecks()
+	v.checkNewForks()
 	to := time.Duration(spec.TimeoutS) * time.Second
 	if to == 0 {
 		to = 40 * time.Second
@@ -734,7 +784,9 @@ func runVdrSpec(spec *VdrSpec, scratch string) *VdrResult {
 	if run.Final == "complete" && v.final != nil {
 		v.written = map[string]string{}
 		for p, c := range run.Written {
-			v.written[v.rel(p)] = c
+			if !v.underReloc(v.rel(p)) {
+				v.written[v.rel(p)] = c
+			}
 		}
 		v.monitors()
 		v.modelChecks()
@@ -767,13 +819,35 @@ func (v *vdrRun) loop() {
 	idle := 0
 	ctx := context.Background()
 	for len(r.Events) < r.Opts.MaxEvents {
+		if v.spec.RelocateSub && v.reloc == nil && len(r.Opts.CrashAt) > 0 && len(r.Events) < 600 {
+			// mrp is interrupted at the first moment from the chosen one on at which
+			// a sub-pipeline has stage files to relocate
+			due := -1
+			for k := range r.Opts.CrashAt {
+				if due < 0 || k < due {
+					due = k
+				}
+			}
+			if len(r.Events) >= due {
+				delete(r.Opts.CrashAt, due)
+				if len(v.relocCandidates()) > 0 {
+					r.Opts.CrashAt[len(r.Events)] = true
+				} else {
+					r.Opts.CrashAt[len(r.Events)+1+r.Rng.Intn(3)] = true
+				}
+			}
+		}
 		if r.Opts.CrashAt != nil && r.Opts.CrashAt[len(r.Events)] {
 			delete(r.Opts.CrashAt, len(r.Events))
 			// storage goroutines of the mrp that is about to die belong to its lifetime
 			time.Sleep(3 * time.Millisecond)
 			r.ps.VerifStorageBarrier()
 			v.observe(false)
-			if err := r.Crash(); err != nil {
+			crash := r.Crash
+			if v.spec.RelocateSub {
+				crash = v.crashRelocateRestart
+			}
+			if err := crash(); err != nil {
 				r.Final = "error:" + err.Error()
 				return
 			}
@@ -789,6 +863,13 @@ func (v *vdrRun) loop() {
 				r.startJob(job)
 			} else {
 				r.finishJob(job)
+				if v.faultKey != "" && job.Key == v.faultKey && v.spec.FailConsumer != "" && r.Rng.Intn(3) != 0 {
+					// the other jobs in flight finish before mrp reads the journal again
+					for len(r.Pending) > 0 {
+						r.finishJob(r.Pending[0])
+					}
+					v.hist("others-finish-with-the-failure")
+				}
 			}
 			idle = 0
 			continue
@@ -807,6 +888,7 @@ func (v *vdrRun) loop() {
 			r.ps.VerifStorageBarrier()
 			v.checkOutside("C14:outside-touched", "by volatile data removal")
 			v.postKill = v.snapshot(true)
+			v.unwatchRelocated()
 			r.ps.PostProcess()
 			v.checkOutside("C14:outside-touched-by-postprocess", "by post-processing")
 			v.final = v.snapshot(true)
@@ -816,7 +898,7 @@ func (v *vdrRun) loop() {
 		}
 		done, progress := r.stepOnce()
 		if done {
-			if r.Final == "failed" && v.spec.FailChunk && v.faultSet && !v.retried {
+			if r.Final == "failed" && (v.spec.FailChunk || v.spec.FailConsumer != "") && v.faultSet && !v.retried {
 				// the operator restarts mrp; the failed chunk is reset and retried
 				v.retried = true
 				r.killPending(0)
@@ -826,12 +908,30 @@ func (v *vdrRun) loop() {
 				time.Sleep(3 * time.Millisecond)
 				r.ps.VerifStorageBarrier()
 				v.observe(false)
+				if v.spec.FailConsumer != "" {
+					// a kill pass over every node while the failed consumer waits for its
+					// retry (any completion of a neighbour triggers such passes): the model
+					// replays it from the real bookkeeping, with the failed node NOT done
+					v.snapshot(false)
+					preFail := v.snapshot(true)
+					v.collectPreNames(preFail)
+					r.ps.VDRKill()
+					r.ps.VerifStorageBarrier()
+					v.checkOutside("C14:outside-touched", "by volatile data removal at failure time")
+					postFail := v.snapshot(true)
+					v.modelChecksOn(preFail, postFail, "kill pass while a failed consumer awaits its retry", false)
+					v.observe(false)
+				}
 				if err := r.Restart(); err != nil {
 					r.Final = "error:" + err.Error()
 					return
 				}
 				v.observe(true)
-				v.hist("restart-after-chunk-failure")
+				if v.spec.FailConsumer != "" {
+					v.hist("restart-after-consumer-failure")
+				} else {
+					v.hist("restart-after-chunk-failure")
+				}
 				idle = 0
 				continue
 			}
